@@ -231,13 +231,20 @@ pub fn cases_from(ctx: &SpecCtx, r: &mut TestRunner, plan: &Plan) -> Vec<Case> {
         .any(|s| s.rules.iter().any(|r| matches!(r.kind, oracle::spec::Kind::Script | oracle::spec::Kind::FScript)));
     let ss = gen::script_strategy(n_sets, ctx.flat.fallible, plan.script_len);
     let mut out = Vec::with_capacity(ins.len());
-    for i in ins {
+    let ctors = gen::ctor_strategy();
+    for (k, i) in ins.into_iter().enumerate() {
+        // a share of the cases goes through the other constructors (iterator input included)
+        let ctor = if k % 4 == 3 { sample(&ctors, r) } else { Ctor::NewWithState };
+        let n0 = out.len();
         if plan.scripts && uses_script {
             for _ in 0..plan.scripts_per_input.max(1) {
                 out.push(gen::simple_case(i.clone(), sample(&ss, r)));
             }
         } else {
             out.push(gen::simple_case(i, vec![]));
+        }
+        for c in out[n0..].iter_mut() {
+            c.ctor = ctor;
         }
     }
     out
